@@ -441,12 +441,59 @@ def ogg_lacing_sweep(ctx, checks):
 TRAILER_MARK = b"Trailer-Mark-7Q"
 
 
+def _opus_trailer_c09(ctx, kind, f0, w0, odd, d):
+    """padding callback on an OpusTags packet with data behind the comment list (classification by the walker)"""
+    from .shared import ogg_pages_in_place
+    old_title = dict((k.lower(), v) for k, v in w0["tags"]["items"]).get(b"title", b"")
+    for ret, growth in ((0, 3), (1, 0), (77, -2), (5001, 0), ("keep", 0), ("keep", 4)):
+        title = "T" * (len(old_title) + growth)
+        log = []
+
+        def cb(info):
+            r = max(info.padding, 0) if ret == "keep" else ret
+            log.append((info.padding, info.size, r))
+            return r
+        dd = dict(d, returns=ret, title_growth=growth)
+        try:
+            o = kind.open(io.BytesIO(f0))
+            o.tags["title"] = [title]
+            b = io.BytesIO(f0)
+            o.save(b, padding=cb)
+            out = b.getvalue()
+            w1 = kind.walk(out)
+        except (mutagen.MutagenError, W.Bad):
+            continue
+        ctx.count("ogg:opus-trailer-c09")
+        if odd:
+            # documented limitation: nothing can be added behind data that has to be preserved
+            if log and w1["padding"] not in (None, log[0][2]):
+                _v(ctx, "C09", "OggOpus: padding found in the saved file differs from what the callback returned", dict(dd, returned=log[0][2], measured=w1["padding"]))
+            continue
+        if len(log) != 1:
+            _v(ctx, "C09", "OggOpus: the padding callback was called %d times although the comment is followed by padding" % len(log), dd)
+            continue
+        p_in, _, r = log[0]
+        if p_in != w0["padding"] - growth:
+            _v(ctx, "C09", "OggOpus: info.padding is not the space left in the old comment packet", dict(dd, info_padding=p_in, old_padding=w0["padding"]))
+        if w1["padding"] != r:
+            _v(ctx, "C09", "OggOpus: padding found in the saved file differs from what the callback returned", dict(dd, returned=r, measured=w1["padding"]))
+        if r == p_in:
+            if len(out) != len(f0):
+                _v(ctx, "C09", "OggOpus: returning info.padding changed the file size", dict(dd, info_padding=p_in, delta=len(out) - len(f0)))
+            else:
+                msg = ogg_pages_in_place(w0, w1, f0, out)
+                if msg:
+                    _v(ctx, "C09", "OggOpus: returning info.padding moved or altered data outside the comment packet", dict(dd, detail=msg))
+
+
 def ogg_opus_trailer_sweep(ctx, checks):
     """OpusTags packets with data behind the comment list, for every value of its first byte (RFC 7845 5.2): least
     significant bit set = opaque data every operation keeps byte for byte (C07 unmodified save, C02 save / delete);
     clear = padding, of whatever bytes: gone after delete together with anything it contained (C08), and the comment
-    still round-trips (C01)"""
-    if not {"C01", "C02", "C07", "C08"} & set(checks):
+    still round-trips (C01), and it is padding for the callback too (C09): a save with a callback calls it exactly once
+    with info.padding = what is left of the old packet, and what it returns (0 / 1 / 77 / 5001 / info.padding) is what the
+    saved packet carries; only for opaque data the callback may stay uncalled (nothing can be added behind it)"""
+    if not {"C01", "C02", "C07", "C08", "C09"} & set(checks):
         return
     from . import synth_ogg as SO
     kind = KINDS["OggOpus"]
@@ -481,6 +528,8 @@ def ogg_opus_trailer_sweep(ctx, checks):
         ctx.oracle_cases += 1
         ctx.count("ogg:opus-trailer-" + ("opaque" if odd else "padding"))
         ctx.case(("OggOpus", "trailer", b0))
+        if "C09" in checks:
+            _opus_trailer_c09(ctx, kind, f0, w0, odd, d)
         for op, out in outs.items():
             dd = dict(d, op=op)
             try:
